@@ -436,11 +436,184 @@ func deep(seed uint64, total int64) (code int, index int64, checked int64) {
 	return
 }
 
+// ---- several buffers, long histories ----------------------------------------------------------
+// mbuf = one real Buffer together with its reference: the FIFO list of typed values written and
+// not yet read.  Every write checks Len(), every read first peeks (value, Len unchanged) and
+// then reads (value, Len).  fail != 0 once something differed.
+type mval struct {
+	k uint8
+	u uint64
+}
+
+type mbuf struct {
+	b      *qnet.Buffer
+	q      []mval
+	head   int
+	expect int
+	fail   int
+	n      int64
+}
+
+func newMbuf() *mbuf { return &mbuf{b: new(qnet.Buffer)} }
+
+func (m *mbuf) pending() int { return len(m.q) - m.head }
+
+func (m *mbuf) write(r *Rng) {
+	k := r.Intn(nKinds)
+	u := truncWord(k, rawValue(r, k))
+	writeRaw(m.b, k, u)
+	m.q = append(m.q, mval{uint8(k), u})
+	m.expect += widthOf(k)
+	m.n++
+	if m.b.Len() != m.expect && m.fail == 0 {
+		m.fail = 1
+	}
+}
+
+func (m *mbuf) read() {
+	v := m.q[m.head]
+	k := int(v.k)
+	if pk := peekRaw(m.b, k); (pk != v.u || m.b.Len() != m.expect) && m.fail == 0 {
+		m.fail = 4
+	}
+	got := readRaw(m.b, k)
+	m.expect -= widthOf(k)
+	m.head++
+	m.n += 2
+	if (got != v.u || m.b.Len() != m.expect) && m.fail == 0 {
+		m.fail = 3
+	}
+	if m.head == len(m.q) {
+		m.q, m.head = m.q[:0], 0
+		if m.b.Len() != 0 && m.fail == 0 {
+			m.fail = 3
+		}
+	}
+}
+
+func (m *mbuf) fillTo(r *Rng, bytes int) {
+	for m.expect < bytes && m.fail == 0 {
+		m.write(r)
+	}
+}
+
+func (m *mbuf) drain() {
+	for m.pending() > 0 && m.fail == 0 {
+		m.read()
+	}
+}
+
+// phases(seed): ONE buffer through a long life: backlogs of very different sizes (relative to
+// 4 KiB, 64 KiB, 1 MiB), each followed by a complete drain and ordinary small traffic on the
+// same buffer.  Returns the first failure code (1 width | 3 read | 4 peek | 5 panic) and the phase.
+func phases(seed uint64, big int) (code int, phase int, checked int64) {
+	m := newMbuf()
+	pn, _ := Catch(func() {
+		r := NewRng(seed)
+		sizes := []int{100, 70000, 40, 5000, 4096, 4097, 9, 66000, 300, big, 17, 65536, 65537, 3, 140000, 64}
+		for i, sz := range sizes {
+			phase = i
+			m.fillTo(r, sz)
+			if r.Bool() { // partial drain, more writes, then everything
+				for j := m.pending() / 2; j > 0 && m.fail == 0; j-- {
+					m.read()
+				}
+				m.fillTo(r, m.expect+r.Intn(200))
+			}
+			m.drain()
+			// ordinary traffic right after the drain
+			for j := r.Range(1, 20); j > 0 && m.fail == 0; j-- {
+				m.write(r)
+				if r.Bool() {
+					m.read()
+				}
+			}
+			m.drain()
+			if m.fail != 0 {
+				return
+			}
+		}
+	})
+	if pn && m.fail == 0 {
+		m.fail = 5
+	}
+	return m.fail, phase, m.n
+}
+
+// multi(seed, nbuf, steps): nbuf buffers alive at the same time in ONE goroutine, operations on
+// them interleaved at random: small writes, single reads, complete drains, occasional larger
+// backlogs, and buffers that are dropped and replaced by fresh ones.  Each buffer is checked
+// against its own reference.
+func multiStep(r *Rng, ms []*mbuf, big bool) {
+	i := r.Intn(len(ms))
+	m := ms[i]
+	switch c := r.Intn(20); {
+	case c < 8:
+		for j := r.Range(1, 6); j > 0; j-- {
+			m.write(r)
+		}
+	case c < 13:
+		for j := r.Range(1, 4); j > 0 && m.pending() > 0; j-- {
+			m.read()
+		}
+	case c < 17:
+		m.drain()
+	case c == 17:
+		if m.pending() == 0 {
+			ms[i] = newMbuf() // a fresh buffer takes over; the old one is garbage
+			ms[i].n = m.n
+		} else {
+			m.drain()
+		}
+	case c == 18:
+		m.fillTo(r, m.expect+r.PickInt(500, 4096, 5000))
+	default:
+		if big {
+			m.fillTo(r, m.expect+r.PickInt(66000, 70000, 4096))
+		} else {
+			m.write(r)
+		}
+	}
+}
+
+func multi(seed uint64, nbuf, steps int) (code int, step int, checked int64) {
+	ms := make([]*mbuf, nbuf)
+	for i := range ms {
+		ms[i] = newMbuf()
+	}
+	failed := func() int {
+		for _, m := range ms {
+			if m.fail != 0 {
+				return m.fail
+			}
+		}
+		return 0
+	}
+	pn, _ := Catch(func() {
+		r := NewRng(seed)
+		for step = 0; step < steps && failed() == 0; step++ {
+			multiStep(r, ms, step%64 == 63)
+		}
+		for _, m := range ms {
+			m.drain()
+		}
+	})
+	code = failed()
+	if pn && code == 0 {
+		code = 5
+	}
+	for _, m := range ms {
+		checked += m.n
+	}
+	return
+}
+
 // ---- separate buffers on separate goroutines ---------------------------------------------------
-// concurrent(seed, g, rounds): g goroutines, each with PRIVATE Buffers and its own value stream,
-// write 64 typed values, check Len(), read them back bit for bit; nothing is shared between
-// them, so on correct code the outcome cannot depend on the schedule.
-// Returns 0 ok | 1 width | 3 read-back | 5 panic.
+// concurrent(seed, g, rounds): g goroutines, each with its OWN buffers (three alive at a time,
+// continuously filled, drained, refilled and replaced, so that anything the package recycles
+// migrates between goroutines) and its own value stream; nothing is shared between them, so on
+// correct code the outcome cannot depend on the schedule.
+// Returns 0 ok | 1 width | 3 read-back | 4 peek | 5 panic.
 func concurrent(seed uint64, g, rounds int) (code int, checked int64) {
 	var wg sync.WaitGroup
 	var bad, n int64
@@ -448,38 +621,32 @@ func concurrent(seed uint64, g, rounds int) (code int, checked int64) {
 		wg.Add(1)
 		go func(id int) {
 			defer wg.Done()
+			ms := []*mbuf{newMbuf(), newMbuf(), newMbuf()}
 			pn, _ := Catch(func() {
 				r := NewRng(seed + uint64(id)*7919)
-				var ks [64]int
-				var us [64]uint64
 				for round := 0; round < rounds && atomic.LoadInt64(&bad) == 0; round++ {
-					var b qnet.Buffer
-					expect := 0
-					for i := range ks {
-						ks[i] = r.Intn(nKinds)
-						us[i] = truncWord(ks[i], rawValue(r, ks[i]))
-						writeRaw(&b, ks[i], us[i])
-						expect += widthOf(ks[i])
-						if b.Len() != expect {
-							atomic.CompareAndSwapInt64(&bad, 0, 1)
+					for j := 0; j < 24; j++ {
+						multiStep(r, ms, false)
+					}
+					for _, m := range ms {
+						if m.fail != 0 {
+							atomic.CompareAndSwapInt64(&bad, 0, int64(m.fail))
 							return
 						}
 					}
-					for i := range ks {
-						if readRaw(&b, ks[i]) != us[i] {
-							atomic.CompareAndSwapInt64(&bad, 0, 3)
-							return
-						}
+				}
+				for _, m := range ms {
+					m.drain()
+					if m.fail != 0 {
+						atomic.CompareAndSwapInt64(&bad, 0, int64(m.fail))
 					}
-					if b.Len() != 0 {
-						atomic.CompareAndSwapInt64(&bad, 0, 3)
-						return
-					}
-					atomic.AddInt64(&n, 128)
 				}
 			})
 			if pn {
 				atomic.CompareAndSwapInt64(&bad, 0, 5)
+			}
+			for _, m := range ms {
+				atomic.AddInt64(&n, m.n)
 			}
 		}(id)
 	}
@@ -488,6 +655,14 @@ func concurrent(seed uint64, g, rounds int) (code int, checked int64) {
 }
 
 func run(in Sx) Sx {
+	if in.Len() == 1 && in.At(0).At(0).AsInt() == 12 {
+		code, phase, _ := phases(in.At(0).At(1).Uint64(), in.At(0).At(2).AsInt())
+		return List(Int(ws), List(List(Int(12), Int(int64(code)), Int(int64(phase)))))
+	}
+	if in.Len() == 1 && in.At(0).At(0).AsInt() == 13 {
+		code, step, _ := multi(in.At(0).At(1).Uint64(), in.At(0).At(2).AsInt(), in.At(0).At(3).AsInt())
+		return List(Int(ws), List(List(Int(13), Int(int64(code)), Int(int64(step)))))
+	}
 	if in.Len() == 1 && in.At(0).At(0).AsInt() == 11 {
 		code, _ := concurrent(in.At(0).At(1).Uint64(), in.At(0).At(2).AsInt(), in.At(0).At(3).AsInt())
 		return List(Int(ws), List(List(Int(11), Int(int64(code)), Int(0))))
@@ -887,6 +1062,44 @@ func gen(a Args, out *Out) {
 		}
 	}
 	out.Note("deep-buffer sweep up to %d bytes in one buffer", deepTotal)
+	// one buffer through a long life with phases; several buffers interleaved in one goroutine
+	names := map[int]string{1: "width", 3: "readback", 4: "peek", 5: "panic"}
+	bigPhase := 1<<20 + 5
+	if ws == 4 {
+		bigPhase = 300000
+	}
+	nphase, nmulti, msteps := 4, 40, 3000
+	if a.Thorough() {
+		nphase, nmulti, msteps = 30, 400, 6000
+	}
+	for i := 0; i < nphase; i++ {
+		pseed := rng.Next()
+		code, phase, checked := phases(pseed, bigPhase)
+		out.GoChecked += checked
+		out.Count("phase runs")
+		in := List(List(Int(12), Uint(pseed), Int(int64(bigPhase))))
+		if code != 0 {
+			out.Violation("C19/phases/"+names[code], "one buffer, backlog / complete drain / reuse: "+names[code]+" fails in phase "+strconv.Itoa(phase), List(in, List()))
+		}
+		if i == 0 {
+			out.Case("phases", true, in, run(in))
+		}
+	}
+	for i := 0; i < nmulti; i++ {
+		mseed := rng.Next()
+		nbuf := 2 + i%3
+		code, step, checked := multi(mseed, nbuf, msteps)
+		out.GoChecked += checked
+		out.Count("multi-buffer runs")
+		in := List(List(Int(13), Uint(mseed), Int(int64(nbuf)), Int(int64(msteps))))
+		if code != 0 {
+			out.Violation("C19/multi/"+names[code], strconv.Itoa(nbuf)+" buffers interleaved in one goroutine: "+names[code]+" fails at step "+strconv.Itoa(step), List(in, List()))
+		}
+		if i < 3 {
+			out.Case("multi", true, in, run(in))
+		}
+	}
+	out.Note("phases: %d runs of 16 backlog/drain/reuse phases on one buffer (largest %d bytes); multi: %d runs of %d interleaved steps on 2..4 buffers", nphase, bigPhase, nmulti, msteps)
 	// separate Buffers used from separate goroutines at the same time
 	crounds := 3000
 	if a.Thorough() {
@@ -899,14 +1112,14 @@ func gen(a Args, out *Out) {
 		out.Count("concurrent runs")
 		in := List(List(Int(11), Uint(cseed), Int(8), Int(int64(crounds))))
 		if code != 0 {
-			what := map[int]string{1: "width", 3: "readback", 5: "panic"}[code]
+			what := names[code]
 			out.Violation("C19/concurrent/"+what, "8 goroutines with private buffers: "+what+" fails", List(in, List()))
 		}
 		if rep == 0 {
 			out.Case("concurrent", true, List(List(Int(11), Uint(cseed), Int(8), Int(200))), run(List(List(Int(11), Uint(cseed), Int(8), Int(200)))))
 		}
 	}
-	out.Note("concurrent stress: 3 x 8 goroutines x %d rounds of 64 typed values on private buffers", crounds)
+	out.Note("concurrent stress: 3 x 8 goroutines x %d rounds of 24 interleaved steps on 3 private buffers each", crounds)
 	// every kind written / peeked / read at every exact length within 10 bytes of 2^k
 	kmax := uint(24)
 	if a.Thorough() {
